@@ -211,3 +211,39 @@ Theorem C10_link_carries_source_value : forall rx_ok rx_extract cx loc name c n 
     /\ assoc_get n f = Some (value_of_pval v) /\ value_of_pval v <> VUnres.
 Proof. exact link_carries_source_value. Qed.
 Print Assumptions C10_link_carries_source_value.
+
+(* HISTORIES of evaluations on ONE link object (OpenApiLink.extract is memoised per source case id, a Transition holds references
+   to its inner dicts): for every sequence of source exchanges, with repeats and in any interleaving, the k-th Transition returned -
+   read when it is returned AND read again after the whole sequence - is the fresh extraction on its own source exchange: parent id,
+   parameters and body are a function of that exchange only, whatever the link evaluated in between, whatever the cache size.
+   Hypothesis: the case id identifies the exchange (it is what the memo is keyed by). *)
+Theorem C10_link_extraction_independent_of_history :
+  forall (src : Type) (cid : src -> N) (fresh : src -> extracted) (fresh_body : src -> option xval) (cap : nat) (containers : list str),
+  (forall x y, cid x = cid y -> fresh_view src cid fresh fresh_body x = fresh_view src cid fresh fresh_body y) ->
+  forall xs : list src,
+    views_at_return src cid fresh fresh_body cap false containers xs = map (fresh_view src cid fresh fresh_body) xs /\
+    views_at_end src cid fresh fresh_body cap false containers xs = map (fresh_view src cid fresh fresh_body) xs.
+Proof. exact link_extraction_independent_of_history. Qed.
+Print Assumptions C10_link_extraction_independent_of_history.
+
+(* the instance the harness executes against OpenApiLink.extract: sources named by their case id in a table of exchanges,
+   extraction = extract_parameters / extract_body of the link, lru_cache(8); no hypothesis left *)
+Theorem C10_link_history_denotes : forall rx_ok rx_extract l tbl xs,
+  link_history rx_ok rx_extract l false tbl xs
+  = (link_fresh_views rx_ok rx_extract l tbl xs, link_fresh_views rx_ok rx_extract l tbl xs).
+Proof. exact link_history_denotes. Qed.
+Print Assumptions C10_link_history_denotes.
+
+(* regression sentinel: inner dicts built once per link object and shared by all its Transitions (shallow copy of a prebuilt
+   container layout).  Witness [A; B; A], query.id = $response.body#/id, response ids 1 and 2: the third Transition (memo hit
+   for A) says id 2 under parent A, and re-read at the end the first one says id 2 as well; [A; A; B; B] does not show it *)
+Theorem C10_link_shared_containers_sentinel :
+  link_fresh_views rx_any rx_none link_id [cx_id 1; cx_id 2] [0%N; 1%N; 0%N] = [view_id 0 1; view_id 1 2; view_id 0 1] /\
+  link_history rx_any rx_none link_id false [cx_id 1; cx_id 2] [0%N; 1%N; 0%N]
+  = ([view_id 0 1; view_id 1 2; view_id 0 1], [view_id 0 1; view_id 1 2; view_id 0 1]) /\
+  link_history rx_any rx_none link_id true [cx_id 1; cx_id 2] [0%N; 1%N; 0%N]
+  = ([view_id 0 1; view_id 1 2; view_id 0 2], [view_id 0 2; view_id 1 2; view_id 0 2]) /\
+  fst (link_history rx_any rx_none link_id true [cx_id 1; cx_id 2] [0%N; 0%N; 1%N; 1%N])
+  = [view_id 0 1; view_id 0 1; view_id 1 2; view_id 1 2].
+Proof. exact link_shared_containers_sentinel. Qed.
+Print Assumptions C10_link_shared_containers_sentinel.
